@@ -262,6 +262,7 @@ Core == IF Mode = "html"
 Pre == {TextPlain, ETagPlain}
 Post == {TextPlain, STagPlain}
 
+Vocab == TLCEval(Full \cup Core)      \* evaluated once: RandomElement enumerates its argument
 CanFollow(d, c) == IF d = <<>> THEN TRUE ELSE ~d[Len(d)].last /\ ~(d[Len(d)].c = "text" /\ c.c = "text")
 
 (* vacuity: the atom classes (atom names without their element parameter) and token labels that an exhaustive run must
@@ -294,7 +295,7 @@ Init == /\ doc = <<>> /\ sp = 0
 Next ==
     /\ Len(doc) < MaxLen
     /\ IF Sample
-       THEN /\ LET c == RandomElement(Full \cup Core) IN CanFollow(doc, c) /\ doc' = Append(doc, c)
+       THEN /\ LET c == RandomElement(Vocab) IN CanFollow(doc, c) /\ doc' = Append(doc, c)
             /\ UNCHANGED sp
        ELSE \/ /\ sp = 0
                /\ \E c \in Core : CanFollow(doc, c) /\ doc' = Append(doc, c)
